@@ -35,7 +35,8 @@ Consume ==
        /\ CASE e.k = "begin" -> HBeginV(e.p, e.v0) /\ result' = [result EXCEPT ![e.p] = "none"]
             [] e.k = "r"     -> HRead(e.p, e.f) /\ UNCHANGED result
             [] e.k = "w"     -> HWrite(e.p) /\ UNCHANGED result
-            [] e.k = "ret"   -> HNone /\ result' = [result EXCEPT ![e.p] = e.res]
+            [] e.k = "ret"   -> HSettle(e.p) /\ UNCHANGED <<view, seen, linval, wrote>>
+                                /\ result' = [result EXCEPT ![e.p] = e.res]
             [] OTHER         -> HNone /\ UNCHANGED result
     /\ UNCHANGED <<lockf, job, pc, cur, real, cache, step>>
     /\ l' = l + 1 /\ tid' = tid
